@@ -41,6 +41,7 @@ def gen(rng, facts):
         elif r < 0.75: c.set_sink_level(rng.randrange(ns), rng.choice(LEVELS + [10]))
         elif r < 0.80: c.add_filter(rng.randrange(ns), rng.choice([2, 3, 5]))
         else: c.poll()
+    c.mark_tail()
     for _ in range(12): c.poll()
     return c
 
